@@ -454,4 +454,75 @@ theorem exG2_end_differs :
     parseLR exG2 ['1', ' '] 8 [] 0 0 false true = .ok 1 [.s ['1']] ∧
     parse exG2 ['1', ' '] 8 5 0 false true = .ok 2 [.s ['1']] := ⟨rfl, rfl⟩
 
+/-! non-vacuity of `parseLR_direct_eq_parse_iterative_partial`: every hypothesis holds for `exG2` on "1+1+1" -/
+def exS5 : List Char := ['1', '+', '1', '+', '1']
+
+theorem exS5_nows : ∀ c ∈ exS5, mem c [' ', '\n', '\t', '\r'] = false := by decide
+
+theorem exG2_pre (k : Kind) (hk : ∀ w o, k ≠ .lineStart w o) (p : P) (e : Nat) :
+    (if (exNode k).callPre then preParse p (exNode k) exS5 e else PreR.at e) = .at e := by
+  have : preParse p (exNode k) exS5 e = .at e := by
+    unfold preParse
+    cases k <;> simp [exNode, skipWhite_none _ _ exS5_nows] <;> exact absurd rfl (hk _ _)
+  have hc : (exNode k).callPre = true := rfl
+  rw [hc, if_pos rfl, this]
+
+theorem exG2_callPre (n t : Nat) (k : Kind) (hk : ∀ w o, k ≠ .lineStart w o) (hg : exG2[t]? = some (exNode k))
+    (e : Nat) (a : Bool) :
+    parse exG2 exS5 (n + 1) t e a false = parse exG2 exS5 (n + 1) t e a true := by
+  simp only [parse]
+  apply parseStep_callPre_irrel exG2 exS5 _ t (exNode k) e a hg
+  have := exG2_pre k hk (parse exG2 exS5 n) e
+  simpa [exNode] using this
+
+example : parseLR exG2 exS5 6 [] 0 0 false true = enhFix 0 (parse exG2 exS5 6 5 0 false false) :=
+  parseLR_direct_eq_parse_iterative_partial (g := exG2) (E := 0) (m := 1) (sq := 2) (b := 4) (t0 := 3) (I := 5) (Z := 6)
+    (R := 7) (rest := [4])
+    ⟨rfl, rfl, rfl, rfl, rfl, rfl, rfl, rfl, rfl⟩ ⟨rfl, rfl, rfl, rfl, rfl, rfl, rfl, rfl, rfl, rfl, rfl⟩
+    exS5 (D := fun i => i = 3 ∨ i = 4)
+    { present := by intro i hi; rcases hi with rfl | rfl <;> exact ⟨_, rfl⟩
+      closed := by
+        intro i n hi hn c hc
+        rcases hi with rfl | rfl <;> (cases hn; simp [Node.children, Kind.children, exNode] at hc)
+      noFwd := by
+        intro i n e hi hn
+        rcases hi with rfl | rfl <;> (cases hn; simp [exNode]) }
+    (Or.inr rfl) (by intro t ht; simp at ht; exact ht) 2 [] 0 0 false true rfl (fun _ => rfl) rfl
+    (fun a e e' ts' h1 => tailOf_strict exG2 exS5 3 3 [4] rfl
+      (parse_lit1_strict exG2 exS5 2 3 _ '+' rfl rfl) a e e' ts' h1)
+    (by intro h; cases h) (by intro h; cases h)
+    (exG2_pre _ (by intro w o h; cases h)) (exG2_pre _ (by intro w o h; cases h))
+    (exG2_callPre 2 3 (.lit1 '+') (by intro w o h; cases h) rfl)
+    (exG2_callPre 4 4 (.lit1 '1') (by intro w o h; cases h) rfl 0 false)
+    (by intro h; have e : baseOf exG2 exS5 4 4 0 false = .ok 1 [.s ['1']] := rfl
+        rw [e] at h; cases h)
+    (by intro h; have e : baseOf exG2 exS5 4 4 0 false = .ok 1 [.s ['1']] := rfl
+        rw [e] at h; cases h)
+    (by intro l h; have e : baseOf exG2 exS5 4 4 0 false = .ok 1 [.s ['1']] := rfl
+        rw [e] at h; cases h)
+    (by intro e0 ts0 h; have e : baseOf exG2 exS5 4 4 0 false = .ok 1 [.s ['1']] := rfl
+        rw [e] at h; cases h; decide)
+    (by
+      intro e e' ts' h1
+      rw [tailOf_cons exG2 exS5 3 3 [4] false e rfl] at h1
+      cases h3 : parse exG2 exS5 3 3 e false true with
+      | ok l tk =>
+        rw [h3] at h1
+        simp only at h1
+        rw [andRest] at h1
+        have hs4 : isStopOf exG2 4 = false := rfl
+        simp only [hs4, Bool.false_eq_true, if_false] at h1
+        cases h4 : parse exG2 exS5 3 4 l false true with
+        | ok l2 t2 =>
+          rw [h4] at h1
+          simp [andRest] at h1
+          obtain ⟨rfl, _⟩ := h1
+          exact parse_lit1_end_le exG2 exS5 2 4 _ '1' rfl rfl _ _ _ _ _ h4
+        | fail c l2 => rw [h4] at h1; simp at h1
+        | idx => rw [h4] at h1; simp at h1
+        | hang => rw [h4] at h1; simp at h1
+      | fail c l => rw [h3] at h1; simp at h1
+      | idx => rw [h3] at h1; simp at h1
+      | hang => rw [h3] at h1; simp at h1)
+
 end PP.Parse
